@@ -111,3 +111,72 @@ extern "C" void h_classify() {
   }
   VF_END();
 }
+
+// SweepPass::PendingAdd (reached through the public Seed): pending_ is a
+// signed multiset of directed sub-edges keyed by their lex-ordered end points.
+// After any three additions the stored multiplicity of every edge is the
+// signed sum of what was added, nothing with multiplicity 0 is stored, no empty
+// inner map is left behind, and both end points of every stored edge are
+// scheduled as events.
+#ifndef VF_PA
+#define VF_PA 3
+#endif
+extern "C" void h_pending_add() {
+  SweepPass sp(WindRule::Add, SweepMode::Arrangement);
+  int ax[VF_PA], ay[VF_PA], bx[VF_PA], by[VF_PA], m[VF_PA];
+  for (int k = 0; k < VF_PA; k++) {
+    // a 2x2 lattice keeps the three edges colliding often
+    ax[k] = vf_range(0, 1); ay[k] = vf_range(0, 1); bx[k] = vf_range(0, 1); by[k] = vf_range(0, 1);
+    m[k] = vf_range(-2, 2);
+    sp.Seed(vec2(ax[k], ay[k]), vec2(bx[k], by[k]), m[k]);
+  }
+  // query edge u -> v with u lex-smaller than v
+  const int ux = vf_range(0, 1), uy = vf_range(0, 1), vx = vf_range(0, 1), vy = vf_range(0, 1);
+  vf_assume(ux < vx || (ux == vx && uy < vy));
+  long want = 0;
+  for (int k = 0; k < VF_PA; k++) {
+    if (ax[k] == ux && ay[k] == uy && bx[k] == vx && by[k] == vy) want += m[k];
+    if (bx[k] == ux && by[k] == uy && ax[k] == vx && ay[k] == vy) want -= m[k];
+  }
+  long got = 0;
+  bool innerEmpty = false;
+  auto pit = sp.pending_.find(vec2(ux, uy));
+  if (pit != sp.pending_.end()) {
+    innerEmpty = pit->second.empty();
+    auto it = pit->second.find(vec2(vx, vy));
+    if (it != pit->second.end()) {
+      got = it->second;
+      VF_ASSERT(got != 0);  // cancelled edges are erased, not kept at zero
+      VF_ASSERT(sp.events_.find(vec2(ux, uy)) != sp.events_.end());
+      VF_ASSERT(sp.events_.find(vec2(vx, vy)) != sp.events_.end());
+    }
+  }
+  VF_ASSERT(!innerEmpty);
+  VF_ASSERT(got == want);
+  VF_END();
+}
+
+// PolySetAdd: the same signed-multiset discipline for the output arrangement
+extern "C" void h_polyset_add() {
+  PolySet2 ps;
+  int ax[VF_PA], ay[VF_PA], bx[VF_PA], by[VF_PA], m[VF_PA];
+  for (int k = 0; k < VF_PA; k++) {
+    ax[k] = vf_range(0, 1); ay[k] = vf_range(0, 1); bx[k] = vf_range(0, 1); by[k] = vf_range(0, 1);
+    m[k] = vf_range(-2, 2);
+    PolySetAdd(ps, vec2(ax[k], ay[k]), vec2(bx[k], by[k]), m[k]);
+  }
+  const int ux = vf_range(0, 1), uy = vf_range(0, 1), vx = vf_range(0, 1), vy = vf_range(0, 1);
+  vf_assume(ux < vx || (ux == vx && uy < vy));
+  long want = 0;
+  for (int k = 0; k < VF_PA; k++) {
+    if (ax[k] == ux && ay[k] == uy && bx[k] == vx && by[k] == vy) want += m[k];
+    if (bx[k] == ux && by[k] == uy && ax[k] == vx && ay[k] == vy) want -= m[k];
+  }
+  long got = 0;
+  auto it = ps.find({vec2(ux, uy), vec2(vx, vy)});
+  if (it != ps.end()) { got = it->second; VF_ASSERT(got != 0); }
+  // reversed keys are never stored
+  VF_ASSERT(ps.find({vec2(vx, vy), vec2(ux, uy)}) == ps.end());
+  VF_ASSERT(got == want);
+  VF_END();
+}
